@@ -7,7 +7,7 @@
 (* Ref: SparseMap -- (element, TRUE) at every listed index, (zero, FALSE)   *)
 (* elsewhere.  Model: the rank arithmetic of the accessors.                 *)
 (***************************************************************************)
-EXTENDS Integers, Sequences, FiniteSets, TLC, SequencesExt, FiniteSetsExt
+EXTENDS Integers, Sequences, FiniteSets, TLC, SequencesExt, FiniteSetsExt, ProtoWire
 
 CONSTANT W          \* bits per bitmap word (code: 64)
 
@@ -41,4 +41,10 @@ ModelGet(idx, elts, zero, i) ==
   LET w == i \div W  b == i % W  bits == WordBits(idx, w) IN
   IF b \notin bits THEN <<0, zero>>
   ELSE <<1, elts[Offsets(idx)[w + 1] + Cardinality({x \in bits : x < b}) + 1]>>
+
+\* ---- the serialized form (array.proto: Cnt = 1, Bitmaps = 2, Offsets = 3, Elts = 4) ------
+\* for W = 64; eltbytes: the packed element bytes
+ArrayWords(idx) == [w1 \in 1..NWords(idx) |-> WordBits(idx, w1 - 1)]
+ArrayMsg(idx, eltbytes) ==
+  OptInt(1, Len(idx)) \o PackedW(2, ArrayWords(idx)) \o PackedN(3, Offsets(idx)) \o OptBytes(4, eltbytes)
 =============================================================================
